@@ -166,7 +166,7 @@ func (ex *Exec) callFunction(fr *frame, fn *ssa.Function, args []Val, bind []Val
 		}
 	}
 	if ex.inSpec == 0 || true {
-		if ct := ex.Cfg.Contracts[fn]; ct != nil && ex.Cfg.Modular[fn] && ex.TopFn != fn && !(ct.InlineOwn && ex.TopFn != nil && sameModule(ex.TopFn, fn)) {
+		if ct := ex.Cfg.Contracts[fn]; ct != nil && ex.Cfg.Modular[fn] && ex.TopFn != fn && !(ct.InlineOwn && ex.TopFn != nil && sameModule(ex.TopFn, fn)) && modularHere(ct, ex.TopFn) {
 			return ex.applyContract(fr, fn, ct, args, ins)
 		}
 	}
@@ -688,4 +688,22 @@ func (ex *Exec) forceSliceVal(v Val) (*SliceV, bool) {
 		return ex.forceSlice(x), true
 	}
 	return nil, false
+}
+
+// modularHere: a contract restricted by `modular-for` replaces the body only under the named
+// top-level functions.
+func modularHere(ct *Contract, top *ssa.Function) bool {
+	if len(ct.ModularFor) == 0 {
+		return true
+	}
+	if top == nil {
+		return false
+	}
+	k := FuncKey(top)
+	for _, m := range ct.ModularFor {
+		if m == k {
+			return true
+		}
+	}
+	return false
 }
